@@ -109,11 +109,16 @@ def run(ctx, job):
         a = sym_term(ctx, vs, "a")
         if kind == "term-copy":
             b = a.copy()
+            # the same term with its coefficients supplied in another order is an equal term
+            a2 = P.PolyhedralTerm({v: a.variables[v] for v in reversed(list(a.variables))}, a.constant)
+            r2 = check_pair(ctx, a, a2, "term-reordered-")
+            ctx.expect("term-reordered-equal", r2 is True)
             r = check_pair(ctx, a, b, "term-copy-")
             ctx.expect("term-copy-equal", r is True)
             ctx.expect("term-copy-is-new-object", b is not a and b.variables is not a.variables)
             return {"cls": "OK"}
-        b = sym_term(ctx, vs, "b")
+        # the second term lists its variables in the opposite order: equality and hash must not depend on it
+        b = sym_term(ctx, list(reversed(vs)), "b")
         r = check_pair(ctx, a, b, "term-", term_equal_formula(a, b))
         if kind == "term-triple" and r:
             c = sym_term(ctx, vs, "c")
